@@ -127,6 +127,7 @@ type ipamEni struct {
 	typ     string // "Secondary" | "Trunk"
 	rdma    bool
 	att     bool // attached to the instance (status InUse), else Available
+	mid     string // a transient status the cloud reports for an attached interface ("Attaching"), "" = none
 	primary int
 	v4, v6  map[int]bool
 }
@@ -202,6 +203,9 @@ func (c *ipamCloud) api(e int) *aliyunClient.NetworkInterface {
 	ins := ""
 	if fe.att {
 		st, ins = aliyunClient.ENIStatusInUse, ipamInstance
+		if fe.mid != "" {
+			st = fe.mid
+		}
 	}
 	mode := aliyunClient.ENITrafficModeStandard
 	if fe.rdma {
@@ -1204,6 +1208,53 @@ func (s *ipamSys) step(st vt.M) {
 		s.cloud.mu.Lock()
 		s.cloud.describeFail++
 		s.cloud.mu.Unlock()
+	case "drift_mid", "drift_settle":
+		// the cloud reports an attached interface as Attaching for a while (an attach issued behind the controller's back /
+		// before a restart is still settling); drift_settle: all interfaces are InUse again
+		if s.conf.env != "all" {
+			return
+		}
+		c := s.cloud
+		c.mu.Lock()
+		es := []int{}
+		for e, fe := range c.enis {
+			if fe.att {
+				es = append(es, e)
+			}
+		}
+		sort.Ints(es)
+		if vt.Str(st["a"]) == "drift_settle" {
+			for _, e := range es {
+				c.enis[e].mid = ""
+			}
+			c.w.Emit(vt.M{"ev": "drift_settle"})
+		} else if len(es) > 0 {
+			e := es[vt.Int(st["k"])%len(es)]
+			c.enis[e].mid = aliyunClient.ENIStatusAttaching
+			c.w.Emit(vt.M{"ev": "drift_mid", "e": e, "st": c.enis[e].mid})
+		}
+		c.mu.Unlock()
+	case "enable_v6":
+		// the node is switched to dual stack while pods are running (configuration change of the Node CR)
+		if !s.conf.v4 || s.conf.v6 {
+			return
+		}
+		node := &networkv1beta1.Node{}
+		if err := s.c.Get(ctx, client.ObjectKey{Name: ipamNodeName}, node); err != nil {
+			s.t.Fatal(err)
+		}
+		s.conf.v6, s.conf.cap6 = true, s.conf.cap4
+		node.Spec.ENISpec.EnableIPv6 = true
+		node.Spec.NodeCap.IPv6PerAdapter = s.conf.cap6
+		if err := s.c.Update(ctx, node); err != nil {
+			s.t.Fatalf("enable v6: %v", err)
+		}
+		s.cloud.mu.Lock()
+		s.cloud.cap6 = s.conf.cap6
+		cf := s.conf
+		s.w.Emit(vt.M{"ev": "conf_change", "conf": vt.M{"v4": cf.v4, "v6": cf.v6, "cap4": cf.cap4, "cap6": cf.cap6, "sec": cf.sec,
+			"trunk": cf.trunk, "rdma": cf.rdma, "min": cf.min, "max": cf.max, "maxEni": s.maxEni(), "init": cf.init}})
+		s.cloud.mu.Unlock()
 	case "drift_remove", "drift_add":
 		if s.conf.env != "all" {
 			return
@@ -1256,6 +1307,9 @@ func (s *ipamSys) drain() {
 	s.cloud.mu.Lock()
 	s.cloud.plan = nil
 	s.cloud.describeFail = 0
+	for _, fe := range s.cloud.enis {
+		fe.mid = ""
+	}
 	s.w.Emit(vt.M{"ev": "drain"})
 	s.cloud.mu.Unlock()
 	s.pool.Del(ipamVsw) // a vSwitch blocked after an exhaustion error: its block expires
@@ -1376,7 +1430,7 @@ func ipamRandomScenario(k int, env string, skip map[string]bool) []vt.M {
 		}
 		return m
 	}
-	fams := []string{"random", "lifecycle", "resandbox", "shrink", "faulty", "rollback", "rdma", "gcstale", "adopt", "replace", "shrink6", "resync"}
+	fams := []string{"random", "lifecycle", "resandbox", "shrink", "faulty", "rollback", "rdma", "gcstale", "adopt", "replace", "shrink6", "resync", "midstate", "enable6", "bigtrim"}
 	fam := fams[k%len(fams)]
 	if skip[fam] {
 		fam = "random"
@@ -1391,7 +1445,7 @@ func ipamRandomScenario(k int, env string, skip map[string]bool) []vt.M {
 	if fam == "replace" {
 		n = rng.Intn(3)
 	}
-	if fam == "shrink6" || fam == "resync" {
+	if fam == "shrink6" || fam == "resync" || fam == "midstate" || fam == "enable6" || fam == "bigtrim" {
 		n = 0
 	}
 	for i := 0; i < n; i++ {
@@ -1475,6 +1529,37 @@ func ipamRandomScenario(k int, env string, skip map[string]bool) []vt.M {
 		}
 		sc = append(sc, vt.M{"a": "pod_create", "p": 1 + rng.Intn(2)}, vt.M{"a": "pod_create", "p": 3 + rng.Intn(2)},
 			vt.M{"a": "plan", "outcomes": []any{ipamFaults[rng.Intn(len(ipamFaults))]}}, vt.M{"a": "reconcile"}, rec())
+	case "midstate":
+		// the cloud reports an attached interface as Attaching when the full sync looks (the record copies that status);
+		// pods are waiting for addresses meanwhile
+		cf["pre"], cf["preIPs"], cf["init"], cf["rdma"], cf["trunk"] = 1+rng.Intn(2), 2, "empty", 0, false
+		cf["sec"] = cf["pre"]
+		sc = append(sc, vt.M{"a": "reconcile"}, vt.M{"a": "drift_mid", "k": rng.Intn(2)}, vt.M{"a": "reconcile", "full": true},
+			vt.M{"a": "pod_create", "p": 1}, vt.M{"a": "pod_create", "p": 2}, vt.M{"a": "reconcile"}, vt.M{"a": "reconcile"})
+		if rng.Intn(2) == 0 {
+			sc = append(sc, vt.M{"a": "restart"}, vt.M{"a": "pod_create", "p": 3}, vt.M{"a": "reconcile"})
+		}
+		sc = append(sc, vt.M{"a": "drift_settle"}, vt.M{"a": "reconcile", "full": true}, rec())
+	case "enable6":
+		// an IPv4 node with running pods is switched to dual stack: the pods keep their IPv4 address and get an IPv6 one
+		cf["v4"], cf["v6"], cf["rdma"], cf["trunk"] = true, false, 0, false
+		sc = append(sc, vt.M{"a": "pod_create", "p": 1}, vt.M{"a": "pod_create", "p": 2}, vt.M{"a": "reconcile"}, vt.M{"a": "reconcile"}, vt.M{"a": "reconcile"},
+			vt.M{"a": "cni_add", "p": 1}, vt.M{"a": "cni_add", "p": 2}, vt.M{"a": "enable_v6"})
+		if rng.Intn(3) != 0 { // the first attempt to get IPv6 addresses fails
+			sc = append(sc, vt.M{"a": "plan", "outcomes": []any{[]string{"fb", "fb:throttle", "fb:vswfull"}[rng.Intn(3)]}})
+		}
+		sc = append(sc, vt.M{"a": "reconcile"}, vt.M{"a": "reconcile"})
+		if rng.Intn(2) == 0 {
+			sc = append(sc, vt.M{"a": "pod_create", "p": 3})
+		}
+		sc = append(sc, rec(), rec())
+	case "bigtrim":
+		// one interface carries far more idle addresses than the pool may keep: more than one release batch in one pass;
+		// then demand returns
+		cf["v4"], cf["v6"], cf["rdma"], cf["trunk"], cf["sec"], cf["pre"], cf["preIPs"], cf["init"] = true, rng.Intn(4) == 0, 0, false, 1, 1, 13+rng.Intn(3), "empty"
+		cf["cap4"], cf["cap6"], cf["min"], cf["max"] = 16, 16, 0, rng.Intn(3)
+		sc = append(sc, vt.M{"a": "reconcile"}, vt.M{"a": "reconcile"}, vt.M{"a": "reconcile"}, vt.M{"a": "pod_create", "p": 1}, vt.M{"a": "pod_create", "p": 2},
+			vt.M{"a": "reconcile"}, rec())
 	case "shrink6":
 		// IPv6-only node: three pods fill the first interface, a fourth pod gets a sparsely used second interface; the
 		// three leave with teardown reported; the surplus exceeds the number of addresses on the second interface, whose
